@@ -287,6 +287,17 @@ func genDate(t *rapid.T, label string) string {
 	}
 	m := rapid.IntRange(1, 12).Draw(t, label+"-m")
 	d := rapid.IntRange(1, 31).Draw(t, label+"-d")
+	switch rapid.IntRange(0, 19).Draw(t, label+"-edge") {
+	case 0: // leap day
+		y = rapid.SampledFrom([]int{1952, 2000, 2024, 2048, 2052, 2096, 2104}).Draw(t, label+"-leap")
+		m, d = 2, 29
+	case 1: // month end
+		d = 31
+	case 2:
+		m, d = 12, 31
+	case 3:
+		m, d = 1, 1
+	}
 	if d > monthLen(y, m) {
 		if rapid.IntRange(0, 9).Draw(t, label+"-impossible") != 0 {
 			d = monthLen(y, m)
@@ -464,9 +475,9 @@ func TestC04(t *testing.T) {
 		return
 	}
 	// exhaustive: every day of four years x 5 offsets as from/until pair (thorough), one year in quick
-	years := []int{2049}
+	years := []int{2048} // a leap year
 	if !r.Quick() {
-		years = []int{1999, 2049, 2050, 2100}
+		years = []int{1999, 2000, 2048, 2049, 2050, 2100}
 	}
 	i := 0
 	for _, y := range years {
